@@ -219,6 +219,8 @@ def _compare_flat(cmp, impl, model):
 CFG = dict(
     bins=["c10"],
     imports=["Run.RunC10"],
+    src_tables=True,   # tools/gen_tables.py (+ tools/gen_tables_drv.py) + Proofs/SrcTablesDrv.v: the driver bodies are re-read from the Rust source on every run
+    src_tables_proofs=["Proofs/SrcTablesDrv.vo"],
     exhaustive=False,
     rule="part=driver (exhaustive): len 0..=7 (thorough 12) x window 0..=len+3 x second-series length {len, len-1, len+1; at window 0 "
          "also 0, and there the returned two-series paths are run at the true window 0 with the shorter / empty second series} x the "
@@ -309,7 +311,7 @@ CFG = dict(
                "the MaybeUninit buffer model: in-order writes and vrank's permuted writes leave a complete buffer whose slot j holds the "
                "value stored at j, any store sequence that misses a slot is never exposed. Nothing found false; nothing partial. Still open: "
                "norm.rs lines 146-151 (body of the both-extremes-expired rescan) are never executed by the run (believed unreachable, not "
-               "proved).",
+               "proved). Second tie (translator): the bodies of the twelve `fn rolling*` of view.rs and the Vec / ndarray / Arc overrides are parsed from the Rust source on every run (tools/gen_tables_drv.py) and proved (Proofs/SrcTablesDrv.v, 23 axiom-free theorems, every window / series / pair of lengths) to denote exactly the guards (check2_default / check2_to / check2_custom, by assertion message), the call lists (args_iter, args_iter_idx, args_iter_idx2, slices_iter, calls_to, calls_to_idx, slices_to) and the backend routing of Model/Driver.v.",
     level_note="Trusted: Coq kernel; model of view.rs driver bodies; the instrumented containers implement tevec's public traits "
                "in the harness (Vec's own fast-path reads cannot be observed, only its writes); std Vec internals of vrank "
                "(idx_sorted) are not instrumented; memory effects themselves (an actual out-of-bounds write) are outside Coq.",
